@@ -68,10 +68,12 @@ structure WBlock where
   deriving DecidableEq, Repr, Inhabited
 
 /-- `dict` built from a list of pairs / by repeated assignment: the last value for a key wins -/
-def lastIdx (l : List Str) (k : Str) : Option Nat :=
-  match l.reverse.findIdx? (· == k) with
-  | some j => some (l.length - 1 - j)
-  | Option.none => Option.none
+def lastIdx : List Str → Str → Option Nat
+  | [], _ => Option.none
+  | x :: r, k =>
+    match lastIdx r k with
+    | some j => some (j + 1)
+    | Option.none => if x == k then some 0 else Option.none
 
 /-- `0. < blk.volume < atmos_volume` -/
 def interior (atmos : Rat) (b : WBlock) : Bool := decide (0 < b.volume) && decide (b.volume < atmos)
